@@ -1,3 +1,4 @@
+import re
 from mindsdb_sql.parser.ast.base import ASTNode
 from mindsdb_sql.exceptions import ParsingException
 from mindsdb_sql.parser.utils import indent
@@ -93,8 +94,15 @@ class Function(Operation):
         distinct_str = 'DISTINCT ' if self.distinct else ''
 
         from_str = f' FROM {self.from_arg.to_string()}' if self.from_arg else ''
-        namespace = self.namespace + '.' if self.namespace else ''
-        return f'{namespace}{self.op}({distinct_str}{args_str}{from_str})'
+        def name_str(name):
+            # a name that the lexer does not read as one word was written in back-quotes
+            name = str(name)
+            if not re.fullmatch(r'[A-Za-z_][A-Za-z0-9_$]*', name) and '`' not in name:
+                return f'`{name}`'
+            return name
+
+        namespace = name_str(self.namespace) + '.' if self.namespace else ''
+        return f'{namespace}{name_str(self.op)}({distinct_str}{args_str}{from_str})'
 
 
 class WindowFunction(ASTNode):
